@@ -23,6 +23,9 @@ func init() {
 func c16() []*Ob {
 	searchStores := Callee("(*proxy/search.Ingestor).searchStores")
 	return []*Ob{
+		{Prop: "C16", ID: "C16.11", Engine: "PAIR(two sites)", Floor: 1,
+			Desc:  "the long-term tier is asked when the hot tier has dropped the range: a mature hot store refuses such a range with a response code (nil RPC error), or — if it refuses with an RPC error — searchShard recognises the refusal by its text and fails fast with ErrIngestorQueryWantsOldData",
+			Check: func(c *Ctx) { oldDataRefusalRecognised(c) }},
 		{Prop: "C16", ID: "C16.10", Engine: "DOM(zero value)", Floor: 1,
 			Desc: "a hot store that does not know yet what its oldest data is says so: GrpcV1.earlierThanOldestFrac answers true when FracManager.OldestCT is still zero (between a restart and the first maintenance pass) — every return that is reached under OldestCT == 0 is the constant true; without that a mature store answers a range it has dropped with NO_ERROR and the proxy never asks the long-term tier",
 			Check: func(c *Ctx) {
@@ -167,6 +170,41 @@ func c16() []*Ob {
 							}
 							if isErrField(other) && (bo.Op == token.EQL) == f.Val {
 								okNil = true
+							}
+						}
+					}
+					if !okNil {
+						// or: only when the shard delivered data, and a shard that reports an error never delivers data
+						// (searchShard hands back a nil response with every error)
+						hasData := false
+						for _, f := range FactsAtInstr(call.(ssa.Instruction)) {
+							bo, ok := f.Cond.(*ssa.BinOp)
+							if !ok || !(IsNilConst(bo.X) || IsNilConst(bo.Y)) || (bo.Op == token.NEQ) != f.Val {
+								continue
+							}
+							other := bo.X
+							if IsNilConst(bo.X) {
+								other = bo.Y
+							}
+							if _, fld, _, okF := FieldOf(other); okF && fld == "Data" {
+								hasData = true
+							}
+							if u, isU := other.(*ssa.UnOp); isU {
+								if _, fld, _, okF := FieldOf(u.X); okF && fld == "Data" {
+									hasData = true
+								}
+							}
+						}
+						if hasData {
+							if ss := c.P.Func("(*proxy/search.Ingestor).searchShard"); ss != nil {
+								nilWithErr := true
+								ei := ErrorResultIndex(ss)
+								for _, rp := range ReturnPaths(ss, ei) {
+									if DefinitelyNonNil(rp.Val, rp.Facts) && !IsNilConst(RetOperand(rp.Ret, 0)) {
+										nilWithErr = false
+									}
+								}
+								okNil = nilWithErr
 							}
 						}
 					}
